@@ -229,6 +229,11 @@ func detTrimStack(b []byte) string {
 
 // rawDump iterates the whole engine.  Keys for which skip() is true are left out.
 func (d *detSM) rawDump(skip func(k []byte) bool) (map[string]string, error) {
+	return d.rawDump2(skip, nil)
+}
+
+// rawDump2: like rawDump; mask (if given) projects a value before it is digested.
+func (d *detSM) rawDump2(skip func(k []byte) bool, mask func(k, v []byte) []byte) (map[string]string, error) {
 	out := map[string]string{}
 	it, err := d.store().NewDBRangeIterator(nil, nil, common.RangeClose, false)
 	if err != nil {
@@ -240,7 +245,11 @@ func (d *detSM) rawDump(skip func(k []byte) bool) (map[string]string, error) {
 		if skip != nil && skip(k) {
 			continue
 		}
-		out[hex.EncodeToString(k)] = detShort(it.Value())
+		v := it.Value()
+		if mask != nil {
+			v = mask(k, v)
+		}
+		out[hex.EncodeToString(k)] = detShort(v)
 	}
 	return out, nil
 }
@@ -294,6 +303,8 @@ func (d *detSM) logicalDump(keys detKeys) map[string]string {
 	for _, k := range keys.HLL {
 		n, err := s.PFCount(0, []byte(k))
 		out["hll:"+k] = strconv.FormatInt(n, 10) + detErr(err)
+		ex, err := s.KVExists([]byte(k))
+		out["ex:"+k] = strconv.FormatInt(ex, 10) + detErr(err)
 	}
 	for _, k := range keys.JSON {
 		v, err := s.JGet([]byte(k), []byte(""))
